@@ -18,8 +18,22 @@ for d in sorted(glob.glob('/verif/seeded/*/')):
                 break
     det = ', '.join(m.get('detected_by') or []) or '**missed**'
     rows.append((name, m.get('property', name[:3]), title[:150].replace('|', '/'), det))
+import sys
+_out = []
+def print(*a):          # noqa: collect, then print or splice into DESIGN.md
+    _out.append(' '.join(str(x) for x in a))
 print('| seed | property | change | caught by (quick tier) |')
 print('|---|---|---|---|')
 for r in rows:
     print('| ' + ' | '.join(r) + ' |')
 print(f'\n{len(rows)} seeded changes, {sum(1 for r in rows if "missed" not in r[3])} caught.')
+
+text = '\n'.join(_out) + '\n'
+if '--design' in sys.argv:
+    p = '/verif/DESIGN.md'
+    d = open(p).read()
+    marker = '<!-- SEEDTABLE: everything below is written by tools/seedtable.py --design -->\n'
+    assert d.count(marker) == 1
+    open(p, 'w').write(d[:d.index(marker) + len(marker)] + '\n' + text)
+else:
+    sys.stdout.write(text)
